@@ -396,6 +396,9 @@ int32_t jls_twr_fsr(struct jls_twr_s * self, uint16_t signal_id,
     if (signal_id >= JLS_SIGNAL_COUNT) {
         return JLS_ERROR_PARAMETER_INVALID;
     }
+    if (0 == self->fsr_entry_size_bits[signal_id]) {
+        return JLS_ERROR_NOT_FOUND;  // not defined (through this writer): the size of its samples is unknown
+    }
     uint64_t length_u64 = (((uint64_t) data_length) * self->fsr_entry_size_bits[signal_id] + 7) / 8;
     if (length_u64 > MSG_PAYLOAD_MAX) {
         return JLS_ERROR_TOO_BIG;
